@@ -100,7 +100,7 @@ def run_shard(ctx, shard):
                 for y in range(h):
                     row = ''.join(rng.choice("ab-|+ ") for _ in range(c))
                     if y == rng.randrange(h) or rng.random() < 0.5:
-                        row += rng.choice(['日', '字', 'a', '-', '|', '>', '+', 'ｗ'])
+                        row += rng.choice(['日', '字', 'a', '-', '|', '>', '+', 'ｗ', '\u1100', '\u26a1'])
                     rows.append(row.rstrip() or rng.choice('a+'))
                 parts.append(rows)
             case = {'parts': parts, 'horizontal': rng.random() < 0.3, 'gaps': [rng.randint(1, 3) for _ in range(len(parts) - 1)]}
